@@ -96,3 +96,22 @@ def ser_cases(ctx):
     for _ in range(400 if ctx.tier == "quick" else 20000):
         out.append(random_tree(ctx.rng, ctx.rng.randrange(4)))
     return out
+
+def sizes_cases(ctx):
+    """trees with declared string lengths near 2^61..2^64: partial sums that fit, wrap exactly, wrap by one"""
+    rng = ctx.rng
+    big = [2 ** 61, 2 ** 62, 2 ** 63 - 1, 2 ** 63, 2 ** 63 + 1, 2 ** 64 - 30, 2 ** 64 - 20, 2 ** 64 - 12, 2 ** 64 - 10, 2 ** 64 - 9, 2 ** 64 - 2, 2 ** 64 - 1, 0, 1, 23, 24, 2 ** 32]
+    out = []
+    for a in big:
+        out += ["(bsz %d)" % a, "(tsz %d)" % a, "(tag 1 (bsz %d))" % a, "(arr (bsz %d))" % a, "(arri (tsz %d) (u8 1))" % a,
+                "(map (u8 1) (bsz %d))" % a, "(map (bsz %d) (u8 1))" % a, "(mapi (bsz %d) (u64 5))" % a, "(bszi %d)" % a, "(tszi 1 %d 2)" % a]
+    for a in big[:10]:
+        for b in big[:10]:
+            out += ["(map (bsz %d) (tsz %d))" % (a, b), "(arr (bsz %d) (tsz %d))" % (a, b), "(mapi (u8 1) (u8 2) (bsz %d) (bsz %d))" % (a, b),
+                    "(bszi %d %d)" % (a, b), "(tag %d (arr (tsz %d) (u8 0)))" % (b, a), "(map (arr (bsz %d)) (arri (bsz %d)))" % (a, b)]
+    for _ in range(200 if ctx.tier == "quick" else 5000):
+        k = rng.randrange(2, 5)
+        parts = " ".join("(bsz %d)" % rng.choice([rng.randrange(2 ** 64), 2 ** 64 // k, 2 ** 64 // k - 9, 2 ** 62, 5]) for _ in range(k))
+        out.append(rng.choice(["(arr %s)", "(arri %s)", "(tag 7 (arr %s))"]) % parts)
+        out.append("(map %s)" % " ".join("(bsz %d)" % rng.choice([2 ** 63 - 5, 2 ** 63 - 4, 2 ** 63, 7, 2 ** 62]) for _ in range(2 * rng.randrange(1, 3))))
+    return out
